@@ -32,6 +32,7 @@ SRC_D = "irispie/aldi/differentiators.py"
 SRC_A = "irispie/aldi/adaptations.py"
 SRC_F = "irispie/aldi/finite_differentiators.py"
 OUT = "gen/AldiGen.v"
+OUT_FD = "gen/AldiFdGen.v"      # the finite-difference wrapper (over R; kept apart: it needs Reals)
 
 # ---------------------------------------------------------------------------------------
 # parts of class Atom that are plumbing, not rules: their text is pinned (fail closed)
@@ -606,10 +607,11 @@ def generate() -> str:
     out.append("   argument has an attribute of that name, else the numpy/scipy function *)")
     out.append(f"Definition offered : list string := {_coq_strings(offered)}.")
     out += ["", "End AldiGen.", ""]
-
-    # ---- finite_differentiators.py: step rule and quotient
-    out += _finite_diff()
     return "\n".join(out)
+
+
+def generate_fd() -> str:
+    return "\n".join(_finite_diff())
 
 
 def _finite_diff() -> list[str]:
@@ -646,6 +648,7 @@ def _finite_diff() -> list[str]:
     if b != want:
         raise TranslatorError(f"_calculate_finite_derivatives changed: {b}")
     return [
+        "(* GENERATED by /verif/translator/aldi.py from src/" + SRC_F + " -- do not edit *)",
         "(* finite_differentiators.py: user functions from the model context are differentiated by a two-sided quotient *)",
         "From Coq Require Import Reals.",
         f"Definition fd_relative_step : R := (IZR ({fr.numerator}) / IZR ({fr.denominator}))%R.",
@@ -657,4 +660,6 @@ def _finite_diff() -> list[str]:
 
 
 def run() -> bool:
-    return core.write_if_changed(core.COQ / OUT, generate())
+    a = core.write_if_changed(core.COQ / OUT, generate())
+    b = core.write_if_changed(core.COQ / OUT_FD, generate_fd())
+    return a or b
